@@ -1,5 +1,6 @@
 """C17 - injection, templating, deserialization and misc checks follow their rules."""
 import family
+import scancorr
 from oracles import c17
 
 PROP_FILES = ["theories/Props/C17.v", "theories/Inst/C17_inst.v"]
@@ -13,7 +14,7 @@ def run(R, replay=None):
               "yaml/torch/tarfile/flask/logging/paramiko/exec calls with and without their imports, try/except handler forms x body "
               "forms, asserts x skips configurations; scanned by the real bandit and by the Gallina plugin models; canonical shapes "
               "judged independently against the statement; non-trivial = at least one finding or internal error")
-    family.run_family(R, PROP_FILES, DEPS, ["gen.fam_inject", "gen.fam_misc"], c17.oracle, "inject+misc families", max_quick=3000)
+    family.run_family(R, PROP_FILES, DEPS, ["gen.fam_inject", "gen.fam_misc"], c17.oracle, "inject+misc families", max_quick=3000, eq=scancorr.FINDINGS_AND_ERRORS)
     assert_paths(R)
 
 
